@@ -1,21 +1,2 @@
-/-
-GENERATED by /verif/translators/t9_lww.py from src/database/node.rs (`Node::filter_existing`) of the repository under
-verification on every run of the checks of C02 C03 C11 — do not edit.
--/
-namespace Discret.Gen.Lww
-
-/-- the announced identifier `new` is NOT requested although a row with its id is stored (`existing`):
-    `if new.mdate < existing.mdate { drop } else if new.mdate.eq(&existing.mdate) && new.signature <= existing.signature { drop } else { request }` -/
-def dropIncoming (new_mdate : Int) (new_signature : Nat) (existing_mdate : Int) (existing_signature : Nat) : Bool :=
-  (decide (new_mdate < existing_mdate)) || ((decide (new_mdate = existing_mdate)) && (decide (new_signature ≤ existing_signature)))
-
-/-- the requested row carries `old_local_id`, `old_room_id`, `old_mdate`, `old_verifying_key` of the STORED row -/
-def oldFieldsFromStoredRow : Bool := true
-
-/-- the final branch takes the identifier out of the set to request it -/
-def finalBranchRequests : Bool := true
-
-/-- `existing` is built from the stored row: its id, its mdate, its signature -/
-def existingFromStoredRow : Bool := true
-
-end Discret.Gen.Lww
+/-! translator T9 FAILED on /tmp/mut-lane7/repo: no `else if` after the first branch -/
+example : False := by decide
